@@ -63,7 +63,7 @@ def replay(d):
     pre_ids = dsl.reachable_ids(list(params.values()))
     memo = {}
     old_params = copy.deepcopy(params, memo)
-    ctx = dsl.Ctx(dict(params), old_env=old_params, pre_ids=pre_ids)
+    ctx = dsl.Ctx(dict(params), old_env=old_params, memo=memo, pre_ids=pre_ids)
     # reverse map copy -> original for identity comparisons
     rev = {}
     todo = list(params.values())
